@@ -279,6 +279,14 @@ struct GuardBuf {
 };
 
 // ---------------------------------------------------------------------------
+// aligned allocation whose size need not be a multiple of the alignment
+static inline void *aalloc(size_t align, size_t size)
+{
+    void *p = nullptr;
+    if (posix_memalign(&p, align, size ? size : 1) != 0) { perror("posix_memalign"); _exit(2); }
+    return p;
+}
+
 static inline uint64_t env_u64(const char *k, uint64_t d)
 {
     const char *v = getenv(k);
